@@ -116,6 +116,32 @@ def _render_check(item):
             if got != want:
                 errs.append('report block "%s": %r vs record %r' % (a['msg'][:40], sorted(got.items())[:4], sorted(want.items())[:4])); break
         hexdump = d.encode('utf-8').hex() + '.'
+        # the action section of the report, for the comparison with lean/DroopModel/Report.lean: the header is rebuilt from
+        # the record exactly as ElectionRecord.report() writes it and cut off
+        hd = "\nElection: %s\n\n" % rec['title']
+        hd += "\tDroop package: %s v%s\n" % (rec['droop_name'], rec['droop_version'])
+        hd += "\tRule: %s\n" % rec['rule_info']
+        hd += "\tArithmetic: %s\n" % rec['arithmetic_info']
+        if E.options.unused():
+            hd += "\tUnused options: %s\n" % ", ".join(E.options.unused())
+        if E.options.overrides():
+            hd += "\tOverridden options: %s\n" % ", ".join(E.options.overrides())
+        hd += "\tSeats: %d\n" % rec['seats'] + "\tBallots: %d\n" % rec['nballots']
+        hd += "\t%s: %s\n" % (E.rule.quota_name, rec['quota'])
+        if meth == 'meek':
+            hd += "\tOmega: %s\n" % rec.get('omega')
+        if rec.get('profile_source') is not None:
+            hd += "Source: %s\n" % rec.get('profile_source')
+        if rec.get('profile_comment') is not None:
+            hd += "{%s}\n" % rec.get('profile_comment')
+        hd += "\n"
+        if rec.get('arithmetic_report') is not None:
+            hd += rec.get('arithmetic_report')
+        if not rep.startswith(hd):
+            errs.append('report header is not the one the record describes: %r vs %r' % (rep[:len(hd)][-80:], hd[-80:]))
+            hexrep = None
+        else:
+            hexrep = (rep[len(hd):].encode('utf-8').hex() + '.', ','.join(a['msg'].encode('utf-8').hex() + '.' for a in acts))
         # the three renderings of one (interrupted) record are renderings of the same record: asking for all of them, as
         # Droop.main does, adds the interruption note once
         n0 = len(acts)
@@ -128,8 +154,8 @@ def _render_check(item):
                         % (len(d3.split('\n')) - 2, len(j3['actions']), n3))
     except Exception as e:
         import traceback
-        return ('exc', type(e).__name__ + ' ' + traceback.format_exc()[-300:], None)
-    return ('bad' if errs else 'ok', errs[:4], hexdump)
+        return ('exc', type(e).__name__ + ' ' + traceback.format_exc()[-300:], None, None)
+    return ('bad' if errs else 'ok', errs[:4], hexdump, hexrep)
 
 
 @prop('C18')
@@ -150,6 +176,7 @@ def C18(run):
         pass
     res = common.pmap(_render_check, items, limit=20.0)
     ins, idx = [], []
+    rins, ridx = [], []
     nb = 0
     for k, ((p, o), r) in enumerate(zip(items, res)):
         if r[0] == 'bad' or r[0] == 'exc':
@@ -158,7 +185,23 @@ def C18(run):
                 run.violation(dict(kind='implementation', what='renderings disagree with the record: %s' % (r[1],), blt=gen.blt(p), options=o))
         elif r[0] == 'ok':
             ins.append('DUMP %d %s' % (expected_display(o), gen.case_line(p, o))); idx.append(k)
+            if len(r) > 3 and r[3]:
+                rins.append('REPORT %d %s @@ %s' % (expected_display(o), gen.case_line(p, o), r[3][1])); ridx.append(k)
     model = common.run_driver_parallel(ins)
+    rmodel = common.run_driver_parallel(rins)
+    nrc = 0; firstr = None
+    for k, m in zip(ridx, rmodel):
+        if m != res[k][3][0]:
+            nrc += 1
+            if firstr is None:
+                try:
+                    gm = bytes.fromhex(m.rstrip('.')).decode(); em = bytes.fromhex(res[k][3][0].rstrip('.')).decode()
+                    diff = next(((x, y) for x, y in zip(gm.split('\n'), em.split('\n')) if x != y), (gm[-200:], em[-200:]))
+                except ValueError:
+                    diff = (m[:200], '')
+                firstr = dict(blt=gen.blt(items[k][0]), options=items[k][1], model_line=diff[0][:300], implementation_line=diff[1][:300])
+    run.coverage['report_action_sections_compared_with_model'] = len(rins)
+    run.coverage['report_disagreements'] = nrc
     ncorr = 0; firstc = None
     for k, m in zip(idx, model):
         if m != res[k][2]:
@@ -173,6 +216,9 @@ def C18(run):
     if ncorr and not run.violations:
         firstc.update(kind='correspondence', broken=['correspondence DUMP (lean/DroopModel/Render.lean vs ElectionRecord.dump)'], disagreeing_cases=ncorr)
         run.violation(firstc, 'no-failing-input-found')
+    if nrc and not run.violations:
+        firstr.update(kind='correspondence', broken=['correspondence REPORT (lean/DroopModel/Report.lean vs ElectionRecord.report, action section)'], disagreeing_cases=nrc)
+        run.violation(firstr, 'no-failing-input-found')
     run.coverage['renderings_checked'] = len(items)
     run.coverage['dump_bytes_compared_with_model'] = len(ins)
     run.coverage['dump_disagreements'] = ncorr
